@@ -303,7 +303,7 @@ def units():
     for la in (0, 1):
         for lb in (0, 1):
           for lo, hi in (((1, 2), (3, 3)) if la else ((0, 2), (3, 3), (4, 4))):
-            for tokv, tname in ((0, 'asc'), (1, 'desc'), (2, 'coarse')):
+            for tokv, tname in ((0, 'asc'), (1, 'desc')):      # (a coarse comparator needs 8 ranks to fill the inline part: beyond what the solver handles here)
                 bnd('bnd.ss.merge.%s%d-%d_%s.%s' % ('large' if la else 'inline', lo, hi, 'large' if lb else 'inline', tname), 'bs_smallset_merge',
                     [SSn + '__merge__r' + SSn, FFn + '__op_call__rE_c'], ['C04', 'C05', 'C02'], tier=('quick' if tokv == 0 else 'thorough'), vimpl='VectorImpl_E_X_u8_t_Unc', bound=(10 if tokv == 2 else 8), extra_defs=
                     {'BSS_T': 'struct ' + SSn, 'BSS_N': '4', 'BVEC_T': 'struct StdVectorBase_E_A_u32', 'BSS_MERGE(a, b)': '%s__merge__r%s(a, b)' % (SSn, SSn),
